@@ -552,7 +552,11 @@ def set_item(interp, o, k, v):
                     return
             raise Unsupported("insertion of a symbolic key into a dict")
         if isinstance(k, SObj):
-            raise Unsupported("object as dict key")
+            if isinstance(interp.find_in_mro(k.cls, "__eq__"), types.FunctionType) or \
+                    isinstance(interp.find_in_mro(k.cls, "__hash__"), types.FunctionType):
+                raise Unsupported("object with its own __eq__/__hash__ as dict key")
+            o[k] = v            # identity-keyed
+            return
         return interp.native(operator.setitem, o, k, v)
     if isinstance(o, bytearray):
         interp.check_mutation(o, "bytearray.__setitem__")
@@ -572,6 +576,13 @@ def del_item(interp, o, k):
         return o.delete(interp, k)
     if isinstance(o, SObj):
         return interp.call_dunder(o, "__delitem__", k)
+    if isinstance(o, dict) and isinstance(k, SObj):
+        interp.check_mutation(o, "dict.__delitem__")
+        for key in list(o):
+            if key is k:
+                del o[key]
+                return
+        interp.py_raise(KeyError, OPAQUE)
     if isinstance(o, (list, dict)):
         interp.check_mutation(o, type(o).__name__ + ".__delitem__")
         if is_sym(k) or (isinstance(k, tuple) and contains_sym(k)):
@@ -1092,6 +1103,11 @@ def b_id(interp, v):
 
 
 def b_hash(interp, v):
+    if isinstance(v, SObj):
+        m = interp.find_in_mro(v.cls, "__hash__")
+        if isinstance(m, types.FunctionType):
+            return interp.call(m, (v,), {})
+        return id(v)            # object identity hash
     if contains_sym(v):
         raise Unsupported("hash of symbolic value")
     return interp.native(hash, v)
